@@ -45,6 +45,11 @@ pub struct Case {
     /// the same text must name the same key in every command)
     #[serde(default)]
     pub cr_spelling: bool,
+    /// database d is created with the `newer` strategy (used only with ONE writer: its stale versioned writes are then
+    /// the most recently issued changes, are accepted and stored, and have to be notified like every other write; with
+    /// several writers which stale write is stored is C19's business)
+    #[serde(default)]
+    pub newer_db: bool,
 }
 
 fn w_strategy() -> impl Strategy<Value = W> {
@@ -73,7 +78,7 @@ pub fn case_strategy() -> impl Strategy<Value = Case> {
         prop::collection::vec(prop::collection::vec(s_strategy(), 1..5), 1..3),
         prop::collection::vec(prop_oneof![3 => Just(0u16), 2 => any::<u16>()], 0..60),
     )
-        .prop_map(|(writers, subs, schedule)| Case { writers, subs, schedule, cr_spelling: false }).prop_flat_map(|c| prop::bool::weighted(0.15).prop_map(move |cr| Case { cr_spelling: cr, ..c.clone() }))
+        .prop_map(|(writers, subs, schedule)| Case { writers, subs, schedule, cr_spelling: false, newer_db: false }).prop_flat_map(|c| (prop::bool::weighted(0.15), prop::bool::weighted(0.5)).prop_map(move |(cr, nw)| Case { cr_spelling: cr, newer_db: nw && c.writers.len() == 1, ..c.clone() }))
 }
 
 #[derive(Clone, Debug)]
@@ -129,7 +134,7 @@ pub fn run_case(ctx: &Ctx, case: &Case) -> Result<Outcome, String> {
     let mut node = Node::boot_single(&dir);
     let mut admin = Session::new();
     admin.auth(&node);
-    admin.send(&node, "create-db d tok");
+    admin.send(&node, if case.newer_db && case.writers.len() == 1 { "create-db d tok newer" } else { "create-db d tok" });
     admin.send(&node, "use-db d tok");
     // both keys exist with a version > 0 so that "set-safe k 0" is stale
     admin.send(&node, "set a init");
@@ -441,7 +446,7 @@ fn bounded_family(len: usize) -> Vec<Case> {
     for sp in sub_progs.iter() {
         for wp in writer_progs.iter() {
             for s in scheds.iter() {
-                out.push(Case { writers: vec![wp.clone()], subs: vec![vec![S::Watch { k: 0 }], sp.clone()], schedule: s.clone(), cr_spelling: false });
+                out.push(Case { writers: vec![wp.clone()], subs: vec![vec![S::Watch { k: 0 }], sp.clone()], schedule: s.clone(), cr_spelling: false, newer_db: false });
             }
         }
     }
